@@ -1314,8 +1314,12 @@ func stressShared(seed int64, scale int) int {
 	sharedCache.mu.Unlock()
 	// the retry budget belongs to one execution (C02): executions that share one retry policy, concurrently and in succession,
 	// each get exactly maxRetries + 1 invocations of an always-failing function and end with ExceededError
-	rpBudget := retrypolicy.Builder[int]().WithMaxRetries(2).Build()
-	budgetEx := failsafe.NewExecutor[int](rpBudget)
+	var bFail, bRetry, bSched, bExceeded, bDone, bExecs atomic.Int64
+	rpBudget := retrypolicy.Builder[int]().WithMaxRetries(2).
+		OnFailure(func(failsafe.ExecutionEvent[int]) { bFail.Add(1) }).OnRetry(func(failsafe.ExecutionEvent[int]) { bRetry.Add(1) }).
+		OnRetryScheduled(func(failsafe.ExecutionScheduledEvent[int]) { bSched.Add(1) }).
+		OnRetriesExceeded(func(failsafe.ExecutionEvent[int]) { bExceeded.Add(1) }).Build()
+	budgetEx := failsafe.NewExecutor[int](rpBudget).OnFailure(func(failsafe.ExecutionDoneEvent[int]) { bDone.Add(1) })
 	for round := 0; round < 5*scale; round++ {
 		var bw sync.WaitGroup
 		for k := 0; k < 8; k++ {
@@ -1324,6 +1328,7 @@ func stressShared(seed int64, scale int) int {
 				defer bw.Done()
 				for j := 0; j < 4; j++ {
 					calls := 0
+					bExecs.Add(1)
 					_, err := budgetEx.Get(func() (int, error) { calls++; runtime.Gosched(); return 0, errX })
 					var exc retrypolicy.ExceededError
 					if calls != 3 || !errors.As(err, &exc) {
@@ -1333,6 +1338,12 @@ func stressShared(seed int64, scale int) int {
 			}()
 		}
 		bw.Wait()
+	}
+	// and every one of them produced its own listener calls (C16 per execution): 3 failures, 2 scheduled and started retries,
+	// one exceeded event, one failed completion
+	if n := bExecs.Load(); bFail.Load() != 3*n || bRetry.Load() != 2*n || bSched.Load() != 2*n || bExceeded.Load() != n || bDone.Load() != n {
+		v.add(fmt.Sprintf("%d executions through a shared retry policy (maxRetries 2, always failing) produced OnFailure=%d OnRetryScheduled=%d OnRetry=%d OnRetriesExceeded=%d executor OnFailure=%d",
+			n, bFail.Load(), bSched.Load(), bRetry.Load(), bExceeded.Load(), bDone.Load()))
 	}
 	// the winner of a hedged execution keeps an uncancelled context (C09) also when later executions go through the same
 	// hedge policy instance: nothing of one execution's attempts may be visible to another execution
